@@ -190,9 +190,11 @@ def make_note_el(note, dur, voice, counter, n_of_staves):
         normal_e = etree.SubElement(time_mod_e, "normal-notes")
         normal_e.text = str(sym_dur["normal_notes"])
 
-    if note.staff is not None:
-        if note.staff != 1 or n_of_staves > 1:
-            etree.SubElement(note_e, "staff").text = "{}".format(note.staff)
+    # (in a part with several staves a note without staff is read as staff 1)
+    staff = 1 if (note.staff is None and n_of_staves > 1) else note.staff
+    if staff is not None:
+        if staff != 1 or n_of_staves > 1:
+            etree.SubElement(note_e, "staff").text = "{}".format(staff)
 
     for slur in note.slur_stops:
         number = range_number_from_counter(slur, "slur", counter)
